@@ -1,6 +1,6 @@
 //go:build verif
 
-// Contracts for package byteslice, checked by /verif/gvc (see /verif/DESIGN.md).
+// Contracts for package byteslice, checked by /verif/gvc (see /verif/DESIGN.md, C12 and C20).
 
 package byteslice
 
@@ -11,12 +11,27 @@ package byteslice
 //@   ensures res <= 32 && pow2(res) >= n && (res == 0 || pow2(res - 1) < n)
 //@   ensures n <= 2147483648 ==> res <= 31
 
-// Get: exactly the requested length, capacity at least that large. That the memory is not
-// shared with any slice currently handed out is sync.Pool's contract plus the Put discipline
-// of the clients (property C12); callers rely on it as an assumed clause.
+// Ghost definition: size class k of a Pool stores pointers to arrays of at least 2^k bytes
+// (sync.Pool's assumed contract carries the extent from Put to Get).
+//@ pred classes(p *Pool) := forall k :: 0 <= k && k < 32 ==> poolext[elemref(p.pools, k)] == pow2(k) && !poolring[elemref(p.pools, k)]
+//@ axiom classes(builtinPool)
+
+// Get: exactly the requested length, capacity at least that large, the unsafe.Slice stays inside
+// the stored array. That the memory is not shared with any slice currently handed out is
+// sync.Pool's contract plus the Put discipline of the clients; callers rely on it as an assumed clause.
+//@ func (p *Pool) Get(size int) []byte
+//@   requires p != nil && classes(p)
+//@   ensures size <= 0 ==> res == nil
+//@   ensures size > 0 ==> len(res) == size && cap(res) >= size
+//@   assumes fresh(res)
+//
+// Put: the class chosen never exceeds the capacity of the slice, for every capacity and sub-slice.
+//@ func (p *Pool) Put(buf []byte)
+//@   requires p != nil && classes(p)
+//
 //@ func Get(size int) []byte
 //@   ensures size <= 0 ==> res == nil
-//@   ensures size > 0 ==> res != nil && len(res) == size && cap(res) >= size
+//@   ensures size > 0 ==> len(res) == size && cap(res) >= size
 //@   assumes fresh(res)
 //
 //@ func Put(buf []byte)
